@@ -4,24 +4,27 @@
 # one line per check and ALWAYS restores /repo afterwards.  Never commits.
 set -u
 patch="$(realpath "$1")"; shift
+VERIF_DIR="$(realpath "$(dirname "$0")/..")"
+MT="${MUTANT_TMP:-/tmp/mutant}"
 props=()
 extra=()
 while [ $# -gt 0 ]; do
   if [ "$1" = "--" ]; then shift; extra=("$@"); break; fi
   props+=("$1"); shift
 done
-cd /repo || exit 2
-if [ -n "$(git status --porcelain --untracked-files=no)" ]; then echo "try_mutant: /repo is not clean" >&2; exit 2; fi
-restore() { git -C /repo checkout -- . ; }
+REPO="${COAPSIM_REPO:-/repo}"
+cd "$REPO" || exit 2
+if [ -n "$(git status --porcelain --untracked-files=no)" ]; then echo "try_mutant: $REPO is not clean" >&2; exit 2; fi
+restore() { git -C "$REPO" checkout -- . ; }
 trap restore EXIT
 git apply "$patch" || { echo "try_mutant: patch does not apply" >&2; exit 2; }
 if [ "${MUTANT_BASELINE:-1}" = "1" ]; then
-  base=$(cd /repo && cargo test --offline 2>&1 | grep -E "^test result" | head -1)
+  base=$(cd "$REPO" && cargo test --offline 2>&1 | grep -E "^test result" | head -1)
   echo "baseline-with-mutant: $base"
 fi
 for p in "${props[@]}"; do
   s=$(date +%s)
-  out=$(cd /verif && VERIF_EVIDENCE_DIR=/tmp/mutant-evidence VERIF_REPLAY_DIR=/tmp/mutant-replays ./check "$p" --tier quick "${extra[@]+"${extra[@]}"}" 2>&1)
+  out=$(cd "$VERIF_DIR" && VERIF_EVIDENCE_DIR=$MT-evidence VERIF_REPLAY_DIR=$MT-replays ./check "$p" --tier quick "${extra[@]+"${extra[@]}"}" 2>&1)
   rc=$?
   e=$(date +%s)
   v=$(echo "$out" | grep -m1 "^VIOLATION" || true)
